@@ -33,6 +33,14 @@ func c15Scenarios(tier string) (rulesSc, lockSc []CScenario) {
 	for i := 0; i < 6; i++ {
 		lockSc = append(lockSc, CScenario{Name: "signs" + name(lists[i]) + "||atts" + name(lists[(i+1)%6]), Threads: [][]CReq{{signsN(lists[i]...)}, {attsN(lists[(i+1)%6], 0, 1)}}})
 	}
+	// Multisign batches against each other in every pair of orders (generic signing goes through the same locker).
+	for i := 0; i < len(lists); i++ {
+		for j := i; j < len(lists); j++ {
+			if i < 6 && j < 6 || (i+j)%4 == 0 || tier == "thorough" {
+				lockSc = append(lockSc, CScenario{Name: "signs" + name(lists[i]) + "||signs" + name(lists[j]), Threads: [][]CReq{{signsN(lists[i]...)}, {signsN(lists[j]...)}}})
+			}
+		}
+	}
 	// Triples containing an opposite-order pair, and singles arriving while batches are in progress.
 	triples := [][3]int{{0, 1, 2}, {0, 1, 7}, {6, 9, 11}, {0, 3, 5}, {2, 3, 4}, {6, 11, 1}}
 	if tier == "thorough" {
